@@ -172,6 +172,50 @@ func newDBFrom(m kv.Map) *db.DB {
 
 func showMap(m kv.Map) string { return showModel(m.Sorted()) }
 
+// Database instances are recycled: opening a pebble instance costs more than everything else in a case, and — on the tree as
+// given — db.iterateRange never closes its iterator, which pins the memtable arena (C memory) of every instance it was used on
+// (~90 KB per case if each case had its own instance). An instance serves up to `recycleAfter` refills (more would let superseded
+// versions and tombstones pile up in the memtable and slow every scan), then it is closed and replaced.
+const recycleAfter = 32
+
+type pooledDB struct {
+	d    *db.DB
+	uses int
+}
+
+// scratch twins (only read through full forward iteration, written through batches) and the databases under test
+var scratch [2]pooledDB
+var mainStaged, mainDB pooledDB
+
+func (p *pooledDB) with(m kv.Map) *db.DB {
+	if p.d != nil && p.uses >= recycleAfter {
+		p.d.Close() // "leaked iterators" error expected on the unrepaired tree
+		p.d = nil
+	}
+	if p.d == nil {
+		p.d = newDBFrom(kv.Map{})
+		p.uses = 0
+	}
+	p.uses++
+	d := p.d
+	b := d.NewBatch()
+	for _, e := range d.Iterate(nil, -1, false) {
+		if _, keep := m[string(e.Key())]; !keep {
+			b.Del(e.Key())
+		}
+	}
+	for k, v := range m {
+		b.Set([]byte(k), []byte(v))
+	}
+	d.Write(b)
+	if got := dump(d); !got.Equal(m) {
+		panic(fmt.Sprintf("harness: database refill failed: %s, wanted %s", showMap(got), showMap(m)))
+	}
+	return d
+}
+
+func scratchFrom(i int, m kv.Map) *db.DB { return scratch[i].with(m) }
+
 // ------------------------------------------------------------------------------------------------- staged store state machine
 
 var rootPrefixes = [][]byte{{}, {0x00}, {0x00}, {0x01}, {0x61}, {0x61}, {0xff}, {0x61, 0xff}, {0x00, 0xff}, {0xff, 0xff}}
@@ -180,7 +224,8 @@ type view struct {
 	chain [][]byte // prefixes applied by successive WithPrefix calls starting from the root
 	full  string   // root prefix + chain
 	db    *diffdb.Database
-	id    int
+	id    int // logical view (stable when the handle is re-derived)
+	h     int // handle number (a new one for every diffdb.Database object)
 }
 
 type machine struct {
@@ -190,6 +235,7 @@ type machine struct {
 	model  *kv.Store
 	views  []*view
 	nextID int
+	nextH  int
 	ops    []string // canonical op list (case identity)
 	hist   []string // ops with results (failure message)
 	diffs  []*diffdb.Diff
@@ -231,8 +277,9 @@ func (m *machine) fail(sig string, format string, a ...any) {
 }
 
 func (m *machine) derive(chain [][]byte) *view {
-	v := &view{chain: chain, id: m.nextID}
+	v := &view{chain: chain, id: m.nextID, h: m.nextH}
 	m.nextID++
+	m.nextH++
 	dbv := m.views[0].db
 	full := string(m.rootP)
 	for _, p := range chain {
@@ -248,13 +295,15 @@ func (m *machine) derive(chain [][]byte) *view {
 func (m *machine) freshRoot(newStore bool) {
 	old := append([]*view{}, m.views...)
 	if newStore {
-		m.views = []*view{{db: diffdb.New(m.d, cp(m.rootP)), full: string(m.rootP), id: m.nextID}}
+		m.views = []*view{{db: diffdb.New(m.d, cp(m.rootP)), full: string(m.rootP), id: m.nextID, h: m.nextH}}
 		m.nextID++
+		m.nextH++
 		m.lastWriter = map[string]int{}
 	} else {
 		m.views = m.views[:1]
 	}
 	for _, v := range old[1:] {
+		m.model.DropHandle(v.h)
 		nv := m.derive(v.chain)
 		nv.id = v.id // same logical view (same prefix), new handle
 		m.views = append(m.views, nv)
@@ -524,44 +573,62 @@ func (m *machine) opIterate() {
 
 func (m *machine) root() *diffdb.Database { return m.views[0].db }
 
+// snapView: snapshots are taken/restored through the root view (the only use in the engine: statemachine.ExecuteTransaction);
+// on a tree where a restore is seen by every handle (S10 repaired) any view may be used.
+func (m *machine) snapView(label string, needLive bool) *view {
+	var cands []*view
+	for _, v := range m.views {
+		if (v == m.views[0] || !present.S10) && (!needLive || len(m.model.Live(v.h)) > 0) {
+			cands = append(cands, v)
+		}
+	}
+	if len(cands) == 0 {
+		return nil
+	}
+	if cands[0] == m.views[0] && rapid.Bool().Draw(m.t, label+"-root") {
+		return cands[0]
+	}
+	return cands[rapid.IntRange(0, len(cands)-1).Draw(m.t, label)]
+}
+
 func (m *machine) opSnapshot() {
-	if len(m.model.Snaps) >= 4 {
+	if m.model.LiveTotal() >= 4 {
 		m.t.Skip("enough snapshots")
 	}
-	id := m.root().Snapshot()
-	want := m.model.Snapshot()
-	m.log("root.Snapshot()", fmt.Sprint(id))
+	v := m.snapView("snapview", false)
+	id := v.db.Snapshot()
+	want := m.model.Snapshot(v.h)
+	m.log(fmt.Sprintf("%s.Snapshot()", v.name()), fmt.Sprint(id))
 	m.nOps["snapshot"]++
+	if v != m.views[0] {
+		evid.R.Label("snapshot-through-child-view", 1)
+	}
 	if id != want {
 		m.fail("", "Snapshot id %d, model %d", id, want)
 	}
 }
 
-func (m *machine) liveSnap(label string) int {
-	var ids []int
-	for i := 0; i < m.model.NextSnap; i++ {
-		if _, ok := m.model.Snaps[i]; ok {
-			ids = append(ids, i)
-		}
+// snapTarget picks (view, id): mostly a restorable snapshot, sometimes an unknown id.
+func (m *machine) snapTarget() (*view, int) {
+	bogus := rapid.IntRange(0, 11).Draw(m.t, "snap-bogus") == 0
+	if m.model.LiveTotal() == 0 && rapid.IntRange(0, 9).Draw(m.t, "snap-none") > 0 {
+		m.t.Skip("no live snapshot")
 	}
-	bogus := rapid.IntRange(0, 11).Draw(m.t, label+"-bogus") == 0
-	if len(ids) == 0 && !bogus {
+	v := m.snapView("snapview", !bogus)
+	if v == nil {
 		m.t.Skip("no live snapshot")
 	}
 	if bogus {
-		return rapid.IntRange(0, m.model.NextSnap+1).Draw(m.t, label+"-any")
+		return v, rapid.IntRange(0, m.model.Next[v.h]+1).Draw(m.t, "snap-any")
 	}
-	return rapid.SampledFrom(ids).Draw(m.t, label)
+	return v, rapid.SampledFrom(m.model.Live(v.h)).Draw(m.t, "snap")
 }
 
 func (m *machine) opRestore() {
-	if m.model.NextSnap == 0 {
-		m.t.Skip("no snapshot taken")
-	}
-	id := m.liveSnap("snap")
-	err := m.root().RestoreSnapshot(id)
-	ok := m.model.Restore(id)
-	m.log(fmt.Sprintf("root.RestoreSnapshot(%d)", id), fmt.Sprint(err))
+	v, id := m.snapTarget()
+	err := v.db.RestoreSnapshot(id)
+	ok := m.model.Restore(v.h, id)
+	m.log(fmt.Sprintf("%s.RestoreSnapshot(%d)", v.name(), id), fmt.Sprint(err))
 	m.nOps["restore"]++
 	if (err == nil) != ok {
 		m.fail("", "RestoreSnapshot(%d) err=%v, model exists=%v", id, err, ok)
@@ -569,9 +636,14 @@ func (m *machine) opRestore() {
 	if ok {
 		m.restored = true
 		m.lastWriter = map[string]int{}
-		// callers obtain prefix views anew from the restored root (statemachine GetStore); handles derived before the
-		// restore are not used any more (domain restriction, see notes/C12.md "S10")
-		m.freshRoot(false)
+		// Engine callers obtain prefix views anew from the restored root (statemachine GetStore); handles derived before
+		// the restore keep the discarded overlay on the tree as given (S10, see notes/C12.md) and are not used any more.
+		// Where the restore is seen by every handle, old handles stay in use half of the time.
+		if present.S10 || rapid.Bool().Draw(m.t, "rederive") {
+			m.freshRoot(false)
+		} else {
+			evid.R.Label("restore-handles-retained", 1)
+		}
 		evid.R.Label("restore-ok", 1)
 	} else {
 		evid.R.Label("restore-unknown-id", 1)
@@ -579,13 +651,10 @@ func (m *machine) opRestore() {
 }
 
 func (m *machine) opDeleteSnapshot() {
-	if m.model.NextSnap == 0 {
-		m.t.Skip("no snapshot taken")
-	}
-	id := m.liveSnap("snap")
-	m.root().DeleteSnapshot(id)
-	m.model.DeleteSnapshot(id)
-	m.log(fmt.Sprintf("root.DeleteSnapshot(%d)", id), "ok")
+	v, id := m.snapTarget()
+	v.db.DeleteSnapshot(id)
+	m.model.DeleteSnapshot(v.h, id)
+	m.log(fmt.Sprintf("%s.DeleteSnapshot(%d)", v.name(), id), "ok")
 	m.nOps["deletesnapshot"]++
 }
 
@@ -596,8 +665,7 @@ func (w teeWriter) Del(k []byte)    { w.a.Del(k); w.b.Del(k) }
 
 // revertOn applies the reversal of diff to a twin holding `post` and compares with `pre`.
 func (m *machine) revertOn(post, pre kv.Map, diff *diffdb.Diff, what string) {
-	twin := newDBFrom(post)
-	defer twin.Close()
+	twin := scratchFrom(1, post)
 	b := twin.NewBatch()
 	diffdb.New(twin, cp(m.rootP)).RevertDiff(b, diff)
 	twin.Write(b)
@@ -627,8 +695,7 @@ func showDiff(d *diffdb.Diff) string {
 // store stays in use afterwards.
 func (m *machine) opDryCommit() {
 	pre := dump(m.d)
-	twin := newDBFrom(pre)
-	defer twin.Close()
+	twin := scratchFrom(0, pre)
 	b := twin.NewBatch()
 	diff := m.root().Commit(b)
 	twin.Write(b)
@@ -688,8 +755,7 @@ func (m *machine) opCommit() {
 // finish: final commit, then revert all diffs newest first on a twin (as deleting blocks does), comparing every level.
 func (m *machine) finish() {
 	m.opCommit()
-	twin := newDBFrom(dump(m.d))
-	defer twin.Close()
+	twin := scratchFrom(0, dump(m.d))
 	for i := len(m.diffs) - 1; i >= 0; i-- {
 		b := twin.NewBatch()
 		diffdb.New(twin, cp(m.rootP)).RevertDiff(b, m.diffs[i])
@@ -722,11 +788,10 @@ func TestStagedStoreMachine(t *testing.T) {
 	rapid.Check(t, func(t *rapid.T) {
 		rootP := rapid.SampledFrom(rootPrefixes).Draw(t, "root-prefix")
 		initial := genInitial(t, rootP)
-		d := newDBFrom(initial)
-		defer d.Close()
+		d := mainStaged.with(initial)
 		m := &machine{t: t, d: d, rootP: rootP, model: kv.NewStore(initial), nOps: map[string]int{}, lastWriter: map[string]int{}}
-		m.views = []*view{{db: diffdb.New(d, cp(rootP)), full: string(rootP), id: 0}}
-		m.nextID = 1
+		m.views = []*view{{db: diffdb.New(d, cp(rootP)), full: string(rootP), id: 0, h: 0}}
+		m.nextID, m.nextH = 1, 1
 		kinds := []string{"set", "set", "set", "del", "del", "del", "get", "get", "range", "range", "range", "range", "iterate", "iterate", "iterate",
 			"view", "view", "snapshot", "restore", "restore", "delsnap", "commit", "dry"}
 		t.Repeat(map[string]func(*rapid.T){
@@ -927,13 +992,12 @@ func TestDBMachine(t *testing.T) {
 		for i := 0; i < n; i++ {
 			initial[string(genKey(t, "ik"))] = string(genValue(t, "iv"))
 		}
-		d := newDBFrom(initial)
+		d := mainDB.with(initial)
 		m := &dbMachine{t: t, d: d, model: initial.Clone(), initial: initial}
 		defer func() {
 			for _, r := range m.readers {
 				r.Close()
 			}
-			d.Close()
 		}()
 		kinds := []string{"set", "set", "del", "del", "batch", "batch", "batchdb", "read", "read", "read", "read", "read", "reader", "reader-read", "reader-read", "reader-close"}
 		t.Repeat(map[string]func(*rapid.T){
